@@ -261,8 +261,14 @@ def coq_eval(header: str, exprs: Sequence[str], tag: str, shard: int = 400, time
     """Evaluates each Gallina expression with vm_compute inside Coq (one `Eval` per shard, results as one
     list so that a shard prints one term) and returns the parsed values in order."""
     CASES.mkdir(exist_ok=True)
-    for old in CASES.glob(f"{tag}_*"):
-        old.unlink()
+    tag = f"{tag}_p{os.getpid()}"          # concurrent runs of one property must not share files
+    now = time.time()
+    for old in CASES.glob("*"):           # leftovers of earlier / crashed runs
+        try:
+            if old.name.startswith(tag + "_") or now - old.stat().st_mtime > 6 * 3600:
+                old.unlink()
+        except OSError:
+            pass
     files = []
     for si in range(0, len(exprs), shard):
         name = f"{tag}_{si // shard:04d}"
@@ -289,6 +295,12 @@ def coq_eval(header: str, exprs: Sequence[str], tag: str, shard: int = 400, time
         results.extend(vals)
     if len(results) != len(exprs):
         raise RuntimeError(f"coq_eval: {len(results)} results for {len(exprs)} cases")
+    for name in files:
+        for f in CASES.glob(f"{name}.*"):
+            try:
+                f.unlink()
+            except OSError:
+                pass
     return results
 
 
